@@ -49,7 +49,7 @@ def check(run):
     avx = bool(answers[0].get("avx2", True)) if answers else True
     run.extra["simd_variant"] = "avx2" if avx else "scalar"
     try:
-        model = coqtools.coq_eval("C14", A.IMPORTS, [A.g_case(avx, c["events"], c["aggs"]) for c in cases], shard=max(8, len(cases) // 16 + 1))
+        model = coqtools.coq_eval("C14", A.IMPORTS, [A.g_case(avx, c["events"], c["aggs"], k) for k, c in enumerate(cases)], shard=max(8, len(cases) // 16 + 1))
     except RuntimeError as e:
         run.tie_broken("model evaluation (coqc cases)", str(e))
         model = [None] * len(cases)
@@ -91,7 +91,7 @@ def check(run):
                                "expected": [[A.spec_name(s), A.show(A.expected(s, small["events"]))] for s in small["aggs"]],
                                "contradicts": "theorems C14_* in coq/theories/Agg/Props.v (mathematical definition of each aggregate; path agreement)"})
         if ms is not None:
-            msgs = A.compare_model(c, ans, ms)
+            msgs = A.compare_model(c, ans, ms, k)
             if msgs:
                 n_corr += 1
                 if n_corr <= 3:
